@@ -14,14 +14,16 @@
   specification), QKV.Model.Energy (qenergy.py, extract_energy_sum/profile).
   All sizes are unbounded naturals; the cost polynomials are arbitrary functions.
 
-  Where the code violates the property the provable relation is kept as `_partial` and the
+  Repaired in /repo (model follows the repaired code; the former `_partial`/`_counterexample`
+  pairs are now full theorems with `C19_regress_*` witnesses of the once-failing inputs):
+    * fix 86c5631 : AveragePooling2D output positions, grouped Conv2D/Conv1D, depth_multiplier
+    * fix 2562e1d : pe() on (Global)AveragePooling2D reads `pool_sum_accumulator`
+  Where the code still violates the property the provable relation is kept as `_partial` and the
   violation is a `_counterexample` (each one reproduced on the real code by the harness):
-    * AveragePooling2D      : output positions missing from the count
-    * grouped Conv2D/Conv1D : over-counted by `groups`
-    * DepthwiseConv2D       : depth_multiplier missing from the count
     * Dense(1) on (C, 1)    : `np.max` picks the wrong axis
-    * estimate.py QSeparableConv1D/2D : the 1×1 stage lacks the input-channel factor
-    * pe() on (Global)AveragePooling2D raises (item has no "accumulator" key)
+    * classes get_operation_count does not know report 0 (QAveragePooling2D, QSeparableConv*)
+    * estimate.py (unchanged): grouped QConv2D/QConv1D over-counted by `groups`,
+      QDepthwiseConv2D lacks depth_multiplier, QSeparableConv1D/2D 1×1 stage lacks input channels
 -/
 import QKV.Lemmas.OpCount
 import QKV.Lemmas.Energy
@@ -47,41 +49,90 @@ theorem C19_positions_same_mem (n k s d o : ℕ) :
 
 /-! ## counts that ARE the loop-nest cardinality -/
 
-/-- Conv2D / QConv2D, groups = 1: every kernel, stride, dilation, padding, channel count. -/
+/-- Conv2D / QConv2D, ANY number of groups: every kernel, stride, dilation, padding, channel
+    count.  The kernel Keras builds has `ci / groups` input channels per output channel and the
+    loop nest ranges over exactly those.  (`groups = 1` is the ordinary convolution.) -/
 theorem C19_count_conv2d (name : String) (hn : classify name = .conv2d) (p : Padding)
-    (h w kh kw sh sw dh dw ci co : ℕ)
+    (h w kh kw sh sw dh dw ci co g : ℕ)
     (hsh : 1 ≤ sh) (hsw : 1 ≤ sw) (hkh : 1 ≤ kh) (hkw : 1 ≤ kw) (hdh : 1 ≤ dh) (hdw : 1 ≤ dw) :
-    opCount name (conv2dInfo p h w kh kw sh sw dh dw ci co 1)
-      = some (macConv2d p h w kh kw sh sw dh dw ci co) := by
+    opCount name (conv2dInfo p h w kh kw sh sw dh dw ci co g)
+      = some (macConv2d p h w kh kw sh sw dh dw (ci / g) co) := by
   simp only [opCount, hn, opCountB, conv2dInfo, macConv2d, conv2dNest_length,
-    positions_length _ _ _ _ _ hsh hkh hdh, positions_length _ _ _ _ _ hsw hkw hdw, Nat.div_one]
+    positions_length _ _ _ _ _ hsh hkh hdh, positions_length _ _ _ _ _ hsw hkw hdw]
 
 example : classify "QConv2D" = .conv2d := by decide
 example : classify "Conv2D" = .conv2d := by decide
 example : classify "QConv2DBatchnorm" = .conv2d := by decide
 
-/-- Conv1D / QConv1D, groups = 1 (valid, same and causal padding). -/
+/-- regression witness of fix 86c5631: QConv2D(6, 3, groups=2) on 8×8×4 performs 3888 MACs
+    (the unrepaired code reported 7776). -/
+theorem C19_regress_grouped_conv2d :
+    opCount "QConv2D" (conv2dInfo .valid 8 8 3 3 1 1 1 1 4 6 2) = some 3888 ∧
+    macConv2d .valid 8 8 3 3 1 1 1 1 (4 / 2) 6 = 3888 := by
+  constructor
+  · decide
+  · simp only [macConv2d, conv2dNest_length]; decide
+
+/-- Conv1D / QConv1D, any number of groups (valid, same and causal padding). -/
 theorem C19_count_conv1d (name : String) (hn : classify name = .conv1d) (p : Padding)
-    (n k s d ci co : ℕ) (hs : 1 ≤ s) (hk : 1 ≤ k) (hd : 1 ≤ d) :
-    opCount name (conv1dInfo p n k s d ci co 1) = some (macConv1d p n k s d ci co) := by
+    (n k s d ci co g : ℕ) (hs : 1 ≤ s) (hk : 1 ≤ k) (hd : 1 ≤ d) :
+    opCount name (conv1dInfo p n k s d ci co g) = some (macConv1d p n k s d (ci / g) co) := by
   simp only [opCount, hn, opCountB, conv1dInfo, macConv1d, conv1dNest_length,
-    positions_length _ _ _ _ _ hs hk hd, Nat.div_one]
+    positions_length _ _ _ _ _ hs hk hd]
 
 example : classify "QConv1D" = .conv1d := by decide
 example : classify "Conv1D" = .conv1d := by decide
 
-/-- DepthwiseConv2D / QDepthwiseConv2D with depth_multiplier = 1. -/
+/-- regression witness of fix 86c5631: Conv1D(6, 2, groups=2) on 6×2 (5 positions) performs 60. -/
+theorem C19_regress_grouped_conv1d :
+    opCount "Conv1D" (conv1dInfo .valid 6 2 1 1 2 6 2) = some 60 ∧
+    macConv1d .valid 6 2 1 1 (2 / 2) 6 = 60 := by
+  constructor
+  · decide
+  · simp only [macConv1d, conv1dNest_length]; decide
+
+/-- DepthwiseConv2D / QDepthwiseConv2D with ANY depth multiplier. -/
 theorem C19_count_depthwise (name : String) (hn : classify name = .depthwise) (p : Padding)
-    (h w kh kw sh sw dh dw ci : ℕ)
+    (h w kh kw sh sw dh dw ci dm : ℕ)
     (hsh : 1 ≤ sh) (hsw : 1 ≤ sw) (hkh : 1 ≤ kh) (hkw : 1 ≤ kw) (hdh : 1 ≤ dh) (hdw : 1 ≤ dw) :
-    opCount name (depthwiseInfo p h w kh kw sh sw dh dw ci 1)
-      = some (macDepthwise p h w kh kw sh sw dh dw ci 1) := by
+    opCount name (depthwiseInfo p h w kh kw sh sw dh dw ci dm)
+      = some (macDepthwise p h w kh kw sh sw dh dw ci dm) := by
   simp only [opCount, hn, opCountB, depthwiseInfo, macDepthwise, depthwiseNest_length,
     positions_length _ _ _ _ _ hsh hkh hdh, positions_length _ _ _ _ _ hsw hkw hdw]
   congr 1; ring
 
 example : classify "QDepthwiseConv2D" = .depthwise := by decide
 example : classify "DepthwiseConv2D" = .depthwise := by decide
+
+/-- regression witness of fix 86c5631: DepthwiseConv2D(3, depth_multiplier=2) on 8×8×4 performs
+    2592 (the unrepaired code reported 1296). -/
+theorem C19_regress_depthwise_multiplier :
+    opCount "DepthwiseConv2D" (depthwiseInfo .valid 8 8 3 3 1 1 1 1 4 2) = some 2592 ∧
+    macDepthwise .valid 8 8 3 3 1 1 1 1 4 2 = 2592 := by
+  constructor
+  · decide
+  · simp only [macDepthwise, depthwiseNest_length]; decide
+
+/-- AveragePooling2D: every pool size, stride, padding and channel count — one accumulate per
+    (output position, channel, window tap). -/
+theorem C19_count_avg_pool (name : String) (hn : classify name = .avgPool) (p : Padding)
+    (h w ph pw sh sw c : ℕ) (hsh : 1 ≤ sh) (hsw : 1 ≤ sw) (hph : 1 ≤ ph) (hpw : 1 ≤ pw) :
+    opCount name (avgPoolInfo p h w ph pw sh sw c) = some (macAvgPool p h w ph pw sh sw c) := by
+  simp only [opCount, hn, opCountB, avgPoolInfo, macAvgPool, poolNest_length,
+    positions_length _ _ _ _ _ hsh hph le_rfl, positions_length _ _ _ _ _ hsw hpw le_rfl]
+  simp [prodL]; ring
+
+example : classify "AveragePooling2D" = .avgPool := by decide
+example : classify "AvgPool2D" = .avgPool := by decide
+
+/-- regression witness of fix 86c5631: AveragePooling2D(2) on 8×8×4 performs 256 accumulates
+    (the unrepaired code reported 16). -/
+theorem C19_regress_avg_pool :
+    opCount "AveragePooling2D" (avgPoolInfo .valid 8 8 2 2 2 2 4) = some 256 ∧
+    macAvgPool .valid 8 8 2 2 2 2 4 = 256 := by
+  constructor
+  · decide
+  · simp only [macAvgPool, poolNest_length]; decide
 
 /-- Dense / QDense on `(batch, n_in)` or `(batch, 1, …, 1, n_in)` (squeeze-and-excite use). -/
 theorem C19_count_dense (name : String) (hn : classify name = .dense) (lead nIn units : ℕ)
@@ -142,79 +193,7 @@ theorem C19_est_dense (nIn units : ℕ) (hi : 2 ≤ nIn) (hu : 2 ≤ units) :
   have h2 : 1 < units := hu
   simp [estOps, denseInfo, macDense, denseNest_length, maxL, h1, h2, Nat.mul_comm]
 
-/-! ## where the count is NOT the loop-nest cardinality (defects of the unchanged code) -/
-
-/-- AveragePooling2D: the code reports `channels × pool area`; the loop nest has that many
-    operations PER OUTPUT POSITION. -/
-theorem C19_count_avg_pool_partial (name : String) (hn : classify name = .avgPool) (p : Padding)
-    (h w ph pw sh sw c : ℕ) (hsh : 1 ≤ sh) (hsw : 1 ≤ sw) (hph : 1 ≤ ph) (hpw : 1 ≤ pw) :
-    ∃ n, opCount name (avgPoolInfo p h w ph pw sh sw c) = some n ∧
-      macAvgPool p h w ph pw sh sw c = convOutLen p h ph sh 1 * convOutLen p w pw sw 1 * n := by
-  refine ⟨c * (ph * pw), ?_, ?_⟩
-  · simp [opCount, hn, opCountB, avgPoolInfo, prodL]
-  · simp only [macAvgPool, poolNest_length, positions_length _ _ _ _ _ hsh hph le_rfl,
-      positions_length _ _ _ _ _ hsw hpw le_rfl]
-    ring
-
-/-- AveragePooling2D(2) on 8×8×4: reported 16, performed 256. -/
-theorem C19_count_avg_pool_counterexample :
-    opCount "AveragePooling2D" (avgPoolInfo .valid 8 8 2 2 2 2 4) = some 16 ∧
-    macAvgPool .valid 8 8 2 2 2 2 4 = 256 := by
-  constructor
-  · decide
-  · simp only [macAvgPool, poolNest_length]; decide
-
-/-- Grouped convolution: the kernel has `ci / groups` input channels per output channel, the
-    code multiplies by all `ci`: the report is `groups ×` the loop-nest cardinality. -/
-theorem C19_count_grouped_conv2d_partial (name : String) (hn : classify name = .conv2d)
-    (p : Padding) (h w kh kw sh sw dh dw ci co g : ℕ) (hg : g ∣ ci)
-    (hsh : 1 ≤ sh) (hsw : 1 ≤ sw) (hkh : 1 ≤ kh) (hkw : 1 ≤ kw) (hdh : 1 ≤ dh) (hdw : 1 ≤ dw) :
-    opCount name (conv2dInfo p h w kh kw sh sw dh dw ci co g)
-      = some (g * macConv2d p h w kh kw sh sw dh dw (ci / g) co) := by
-  obtain ⟨q, rfl⟩ := hg
-  simp only [opCount, hn, opCountB, conv2dInfo, macConv2d, conv2dNest_length,
-    positions_length _ _ _ _ _ hsh hkh hdh, positions_length _ _ _ _ _ hsw hkw hdw]
-  rcases Nat.eq_zero_or_pos g with rfl | hgp
-  · simp
-  · rw [Nat.mul_div_cancel_left q hgp]; congr 1; ring
-
-/-- Conv2D(6, 3, groups=2) on 8×8×4: reported 7776, performed 3888. -/
-theorem C19_count_grouped_conv2d_counterexample :
-    opCount "QConv2D" (conv2dInfo .valid 8 8 3 3 1 1 1 1 4 6 2) = some 7776 ∧
-    macConv2d .valid 8 8 3 3 1 1 1 1 (4 / 2) 6 = 3888 := by
-  constructor
-  · decide
-  · simp only [macConv2d, conv2dNest_length]; decide
-
-theorem C19_count_grouped_conv1d_partial (name : String) (hn : classify name = .conv1d)
-    (p : Padding) (n k s d ci co g : ℕ) (hg : g ∣ ci) (hs : 1 ≤ s) (hk : 1 ≤ k) (hd : 1 ≤ d) :
-    opCount name (conv1dInfo p n k s d ci co g) = some (g * macConv1d p n k s d (ci / g) co) := by
-  obtain ⟨q, rfl⟩ := hg
-  simp only [opCount, hn, opCountB, conv1dInfo, macConv1d, conv1dNest_length,
-    positions_length _ _ _ _ _ hs hk hd]
-  rcases Nat.eq_zero_or_pos g with rfl | hgp
-  · simp
-  · rw [Nat.mul_div_cancel_left q hgp]; congr 1; ring
-
-/-- Depthwise convolution with a depth multiplier: the report lacks the factor `dm`. -/
-theorem C19_count_depthwise_multiplier_partial (name : String) (hn : classify name = .depthwise)
-    (p : Padding) (h w kh kw sh sw dh dw ci dm : ℕ)
-    (hsh : 1 ≤ sh) (hsw : 1 ≤ sw) (hkh : 1 ≤ kh) (hkw : 1 ≤ kw) (hdh : 1 ≤ dh) (hdw : 1 ≤ dw) :
-    ∃ n, opCount name (depthwiseInfo p h w kh kw sh sw dh dw ci dm) = some n ∧
-      macDepthwise p h w kh kw sh sw dh dw ci dm = dm * n := by
-  refine ⟨kh * kw * convOutLen p h kh sh dh * convOutLen p w kw sw dw * ci,
-    by simp only [opCount, hn, opCountB, depthwiseInfo], ?_⟩
-  simp only [macDepthwise, depthwiseNest_length,
-    positions_length _ _ _ _ _ hsh hkh hdh, positions_length _ _ _ _ _ hsw hkw hdw]
-  ring
-
-/-- DepthwiseConv2D(3, depth_multiplier=2) on 8×8×4: reported 1296, performed 2592. -/
-theorem C19_count_depthwise_multiplier_counterexample :
-    opCount "DepthwiseConv2D" (depthwiseInfo .valid 8 8 3 3 1 1 1 1 4 2) = some 1296 ∧
-    macDepthwise .valid 8 8 3 3 1 1 1 1 4 2 = 2592 := by
-  constructor
-  · decide
-  · simp only [macDepthwise, depthwiseNest_length]; decide
+/-! ## where the count is NOT the loop-nest cardinality (defects that remain in the code) -/
 
 /-- Dense(1) applied to a `(batch, 5, 1)` tensor performs 5 multiplications (one per row of the
     leading axis, feature axis of size 1); `np.max` takes 5 for both sizes: 25. -/
@@ -222,6 +201,55 @@ theorem C19_count_dense_counterexample :
     opCount "QDense" { inShape := [5, 1], outShape := [5, 1], wShape := [1, 1], poolSize := none }
       = some 25 ∧ 5 * macDense 1 1 = 5 := by
   constructor <;> decide
+
+/-- estimate.py (not repaired): grouped QConv2D is over-counted by exactly `groups`. -/
+theorem C19_est_grouped_conv2d_partial (p : Padding) (h w kh kw sh sw dh dw ci co g : ℕ)
+    (hg : g ∣ ci)
+    (hsh : 1 ≤ sh) (hsw : 1 ≤ sw) (hkh : 1 ≤ kh) (hkw : 1 ≤ kw) (hdh : 1 ≤ dh) (hdw : 1 ≤ dw) :
+    estOps .qconv2d (conv2dInfo p h w kh kw sh sw dh dw ci co g)
+      = some (g * macConv2d p h w kh kw sh sw dh dw (ci / g) co) := by
+  obtain ⟨q, rfl⟩ := hg
+  simp only [estOps, conv2dInfo, macConv2d, conv2dNest_length,
+    positions_length _ _ _ _ _ hsh hkh hdh, positions_length _ _ _ _ _ hsw hkw hdw]
+  rcases Nat.eq_zero_or_pos g with rfl | hgp
+  · simp
+  · rw [Nat.mul_div_cancel_left q hgp]; congr 1; ring
+
+/-- QConv2D(6, 3, groups=2) on 8×8×4: estimate.py reports 7776, performed 3888. -/
+theorem C19_est_grouped_conv2d_counterexample :
+    estOps .qconv2d (conv2dInfo .valid 8 8 3 3 1 1 1 1 4 6 2) = some 7776 ∧
+    macConv2d .valid 8 8 3 3 1 1 1 1 (4 / 2) 6 = 3888 := by
+  constructor
+  · decide
+  · simp only [macConv2d, conv2dNest_length]; decide
+
+theorem C19_est_grouped_conv1d_partial (p : Padding) (n k s d ci co g : ℕ) (hg : g ∣ ci)
+    (hs : 1 ≤ s) (hk : 1 ≤ k) (hd : 1 ≤ d) :
+    estOps .qconv1d (conv1dInfo p n k s d ci co g) = some (g * macConv1d p n k s d (ci / g) co) := by
+  obtain ⟨q, rfl⟩ := hg
+  simp only [estOps, conv1dInfo, macConv1d, conv1dNest_length, positions_length _ _ _ _ _ hs hk hd]
+  rcases Nat.eq_zero_or_pos g with rfl | hgp
+  · simp
+  · rw [Nat.mul_div_cancel_left q hgp]; congr 1; ring
+
+/-- estimate.py (not repaired): QDepthwiseConv2D lacks the factor depth_multiplier. -/
+theorem C19_est_depthwise_multiplier_partial (p : Padding) (h w kh kw sh sw dh dw ci dm : ℕ)
+    (hsh : 1 ≤ sh) (hsw : 1 ≤ sw) (hkh : 1 ≤ kh) (hkw : 1 ≤ kw) (hdh : 1 ≤ dh) (hdw : 1 ≤ dw) :
+    ∃ n, estOps .qdepthwise (depthwiseInfo p h w kh kw sh sw dh dw ci dm) = some n ∧
+      macDepthwise p h w kh kw sh sw dh dw ci dm = dm * n := by
+  refine ⟨kh * kw * convOutLen p h kh sh dh * convOutLen p w kw sw dw * ci,
+    by simp only [estOps, depthwiseInfo], ?_⟩
+  simp only [macDepthwise, depthwiseNest_length,
+    positions_length _ _ _ _ _ hsh hkh hdh, positions_length _ _ _ _ _ hsw hkw hdw]
+  ring
+
+/-- QDepthwiseConv2D(3, depth_multiplier=2) on 8×8×3: estimate.py reports 972, performed 1944. -/
+theorem C19_est_depthwise_multiplier_counterexample :
+    estOps .qdepthwise (depthwiseInfo .valid 8 8 3 3 1 1 1 1 3 2) = some 972 ∧
+    macDepthwise .valid 8 8 3 3 1 1 1 1 3 2 = 1944 := by
+  constructor
+  · decide
+  · simp only [macDepthwise, depthwiseNest_length]; decide
 
 /-- estimate.py QSeparableConv2D: depthwise stage right, 1×1 stage lacks the factor `ci`. -/
 theorem C19_est_sepconv2d_partial (p : Padding) (h w kh kw sh sw dh dw ci co : ℕ)
@@ -282,7 +310,8 @@ def exampleConvLayer : ELayer :=
     inputs := [(256, 8)], nInputs := 1, outElems := 216, outBits := 12, opCount := 3888,
     bnSize := 0, bnBits := [], wElems := 108, wBits := 4, bias := some (6, 4),
     multiplier := some (OpUnit.mk 1 8 .mul (QInfo.mk 12 false)),
-    accumulator := some (QInfo.mk 17 false), bnDivider := none, bnMultiplier := none }
+    accumulator := some (QInfo.mk 17 false), poolAccumulator := none, bnDivider := none,
+    bnMultiplier := none }
 
 example : WFLayer exampleConvLayer := by
   constructor <;> simp [exampleConvLayer]
@@ -495,21 +524,42 @@ theorem C19_entry_no_op (c : Costs) (l : ELayer)
     opEnergy c l = some 0 := by
   rcases hk with hk | hk <;> simp [opEnergy, hk]
 
-/-- (Global)AveragePooling2D: the layer item is a dict keyed `pool_sum_accumulator`; the energy
-    code asks for `accumulator`, gets `None`, and raises — no energy report for such a model. -/
-theorem C19_energy_avg_pool_counterexample (c : Costs) (pl : Placement) (l : ELayer)
-    (ls₁ ls₂ : List ELayer) (hk : eKind l.className = .avgPool) (ha : l.accumulator = none) :
-    energyEstimate c pl (ls₁ ++ l :: ls₂) = none := by
-  have hl : layerEntry c pl l = none := by simp [layerEntry, opEnergy, hk, ha]
-  have : ∀ (ls₁ : List ELayer) acc, energyLoop c pl (ls₁ ++ l :: ls₂) acc = none := by
-    intro ls₁
-    induction ls₁ with
-    | nil => intro acc; obtain ⟨r, t⟩ := acc; simp [energyLoop, hl]
-    | cons x xs ih =>
-      intro acc; obtain ⟨r, t⟩ := acc
-      simp only [List.cons_append, energyLoop]
-      cases layerEntry c pl x <;> simp [ih]
-  simp [energyEstimate, this]
+/-- (Global)AveragePooling2D (fix 2562e1d): the op cost is `count × add(pool accumulator bits)`,
+    read from the item's `pool_sum_accumulator`. -/
+theorem C19_entry_avg_pool (c : Costs) (l : ELayer) (a : QInfo)
+    (hk : eKind l.className = .avgPool) (ha : l.poolAccumulator = some a) (haf : a.isFloat = false) :
+    opEnergy c l = some ((l.opCount : ℚ) * max (c.fpmAdd a.bits) 0) := by
+  simp [opEnergy, hk, ha, opType?, haf, opCost]
+
+/-- A model with average pooling now HAS an energy report: whenever the pooling item carries its
+    `pool_sum_accumulator` (fixed-point or fp16/fp32), the layer gets an entry. -/
+theorem C19_energy_avg_pool (c : Costs) (pl : Placement) (l : ELayer) (a : QInfo)
+    (hk : eKind l.className = .avgPool) (ha : l.poolAccumulator = some a)
+    (hty : a.isFloat = false ∨ a.bits = 32 ∨ a.bits = 16) :
+    ∃ e, layerEntry c pl l = some e := by
+  have : ∃ v, opEnergy c l = some v := by
+    rcases hty with h | h | h
+    · exact ⟨_, C19_entry_avg_pool c l a hk ha h⟩
+    · cases hf : a.isFloat <;> simp [opEnergy, hk, ha, opType?, hf, h, opCost]
+    · cases hf : a.isFloat <;> simp [opEnergy, hk, ha, opType?, hf, h, opCost]
+  obtain ⟨v, hv⟩ := this
+  refine ⟨⟨inputEnergy c pl.actMem pl.minSram pl.rdWr l, outputEnergy c pl.actMem pl.minSram pl.rdWr l,
+    parameterEnergy c pl.wMem pl.minSram pl.rdWr l, v⟩, ?_⟩
+  simp [layerEntry, hv]
+
+def examplePoolLayer : ELayer :=
+  { className := "AveragePooling2D", isInput := false, isOutput := true,
+    inputs := [(256, 4)], nInputs := 1, outElems := 64, outBits := 6, opCount := 256,
+    bnSize := 0, bnBits := [], wElems := 0, wBits := 0, bias := none, multiplier := none,
+    accumulator := none, poolAccumulator := some (QInfo.mk 6 false), bnDivider := none,
+    bnMultiplier := none }
+
+/-- regression witness of fix 2562e1d: the report of a model ending in AveragePooling2D exists
+    (the unrepaired code raised AttributeError). -/
+theorem C19_regress_energy_avg_pool (c : Costs) (pl : Placement) :
+    (energyEstimate c pl [exampleConvLayer, examplePoolLayer]).isSome = true := by
+  simp [energyEstimate, energyLoop, layerEntry, opEnergy, eKind, exampleConvLayer, examplePoolLayer,
+    unitCost, opType?, opCost]
 
 example : eKind "AveragePooling2D" = .avgPool := by decide
 example : eKind "GlobalAveragePooling2D" = .avgPool := by decide
